@@ -1,11 +1,7 @@
 import Irismod.Props.C13_Random
-import Irismod.Proofs.RandomMonitor
 open Irismod
 #print axioms Irismod.Props.C13Random.beginBlock_total
 #print axioms Irismod.Props.C13Random.beginBlock_aborts_only_at_zero_time
 #print axioms Irismod.Props.C13Random.each_due_request_processed
 #print axioms Irismod.Props.C13Random.entry_survives_other_steps
 #print axioms Irismod.Props.C13Random.queue_hygiene_reachable
-#print axioms Irismod.Proofs.RandomMonitor.checkC13_sound
-#print axioms Irismod.Proofs.RandomMonitor.monitor_sound
-#print axioms Irismod.Proofs.RandomMonitor.line_inv
